@@ -259,6 +259,25 @@ def _apply(root: str, rel: str, old: str, new: str) -> str:
     return 'ok'
 
 
+def _mech(root: str, mode: str) -> str:
+    """Whole-tree mechanical refactoring (tools/mech_controls.py): rename every local / swap if-else / both."""
+    import importlib.util
+    spec = importlib.util.spec_from_file_location('mech_controls', os.path.join(VERIF, 'tools', 'mech_controls.py'))
+    mc = importlib.util.module_from_spec(spec)
+    spec.loader.exec_module(mc)
+    for dp, dn, fns in os.walk(os.path.join(root, 'src', 'aioslsk')):
+        for fn in fns:
+            if fn.endswith('.py'):
+                p_ = os.path.join(dp, fn)
+                out = mc.transform(open(p_).read(), mode)
+                try:
+                    compile(out, p_, 'exec')
+                except SyntaxError as exc:
+                    return f'does-not-compile: {exc}'
+                open(p_, 'w').write(out)
+    return 'ok'
+
+
 def _keys(pid: str, root: str):
     """Run the property's rules on `root` in this process and return (exit-like, violation keys)."""
     import importlib
@@ -287,7 +306,9 @@ def _run_variant(args):
     tmp = tempfile.mkdtemp(prefix='aioslsk-verif-selftest-')
     try:
         shutil.copytree(os.path.join(src_root, 'src'), os.path.join(tmp, 'src'), ignore=shutil.ignore_patterns('__pycache__'))
-        if kind in ('seed', 'control'):
+        if kind == 'mech':
+            st = _mech(tmp, old)
+        elif kind in ('seed', 'control'):
             r = subprocess.run(['patch', '-p1', '-s', '--no-backup-if-mismatch', '-i', old], cwd=tmp, capture_output=True, text=True)
             st = 'ok' if r.returncode == 0 else 'stale'
         else:
@@ -324,6 +345,8 @@ def run(pid: str, seed: int, check) -> dict:
         for name in sorted(os.listdir(cd)):
             if name.endswith('.patch'):
                 jobs.append((pid, 'control', name[:-6], '', os.path.join(cd, name), '', None, root, base_keys))
+    for mode in ('rename', 'swapif', 'both'):
+        jobs.append((pid, 'mech', f'whole tree: {mode}', '', mode, '', None, root, base_keys))
     random.Random(seed).shuffle(jobs)
     with mp.Pool(min(16, max(1, len(jobs)))) as pool:
         results = pool.map(_run_variant, jobs)
@@ -334,9 +357,9 @@ def run(pid: str, seed: int, check) -> dict:
         'break_total': sum(1 for r in results if r[1] in ('break', 'seed') and r[3] != 'stale'),
         'keep_silent': sum(1 for r in results if r[1] == 'keep' and r[3] == 'ok'),
         'keep_total': sum(1 for r in results if r[1] == 'keep' and r[3] != 'stale'),
-        'controls_silent': sum(1 for r in results if r[1] == 'control' and r[3] == 'ok'),
-        'controls_total': sum(1 for r in results if r[1] == 'control' and r[3] != 'stale'),
+        'controls_silent': sum(1 for r in results if r[1] in ('control', 'mech') and r[3] == 'ok'),
+        'controls_total': sum(1 for r in results if r[1] in ('control', 'mech') and r[3] != 'stale'),
         'stale': [r[2] for r in results if r[3] == 'stale'],
         'failed': failed,
-        'samples': [{'kind': r[1], 'variant': r[2], 'result': r[3], 'new_violation_keys': r[5]} for r in sorted(results, key=lambda r: (r[1], r[2])) if r[1] != 'control' or r[3] != 'ok'],
+        'samples': [{'kind': r[1], 'variant': r[2], 'result': r[3], 'new_violation_keys': r[5]} for r in sorted(results, key=lambda r: (r[1], r[2])) if r[1] not in ('control', 'mech') or r[3] != 'ok'],
     }
